@@ -117,6 +117,37 @@ def eval3(test, kind: Optional[str], param_var: Optional[str] = None):
   return None
 
 
+def residual(test, kind: Optional[str], param_var: Optional[str] = None):
+  """`test` with its kind atoms decided for `kind`: True / False / an ast
+
+  expression equivalent to the test for every parameter of that kind.
+  """
+  v = eval3(test, kind, param_var)
+  if v is not None:
+    return v
+  if isinstance(test, ast.UnaryOp) and isinstance(test.op, ast.Not):
+    r = residual(test.operand, kind, param_var)
+    if isinstance(r, bool):
+      return not r
+    return ast.UnaryOp(op=ast.Not(), operand=r)
+  if isinstance(test, ast.BoolOp):
+    is_and = isinstance(test.op, ast.And)
+    parts = []
+    for v_ in test.values:
+      r = residual(v_, kind, param_var)
+      if isinstance(r, bool):
+        if r != is_and:
+          return r  # False in an and / True in an or decides
+        continue
+      parts.append(r)
+    if not parts:
+      return is_and
+    if len(parts) == 1:
+      return parts[0]
+    return ast.BoolOp(op=test.op, values=parts)
+  return test
+
+
 def reachable_for_kind(g, start_nodes, target: int, kind: Optional[str],
                        param_var: Optional[str], stop: Set[int]) -> bool:
   """Can `target` be reached from `start_nodes` when every kind test is
